@@ -205,6 +205,7 @@ func genCase(t *rapid.T) (*sem.Case, *sgen.G) {
 	if rapid.Bool().Draw(t, "hask1") {
 		v := rapid.SampledFrom([]any{int64(3), int64(0), 2.5, "s", "", true, false, nil}).Draw(t, "k1v")
 		fields["k1"] = v
+		g.PointKeys = map[string]bool{"k1": true}
 		switch v.(type) {
 		case int64:
 			g.Env["k1"] = sgen.TInt
@@ -373,6 +374,59 @@ func TestLoopScopeTable(t *testing.T) {
 		}
 	}
 	evid.Exhaustive("loop kind x escape x moment x nesting", n)
+}
+
+// TestCompoundOnPointKey: a compound assignment to a name that has no variable but names a key of the point
+// reads the key's value and leaves the result in a variable of the current block; the point keeps its value.
+func TestCompoundOnPointKey(t *testing.T) {
+	type pv struct {
+		v  any
+		rs []*gen.Node
+	}
+	vals := []pv{
+		{int64(3), []*gen.Node{gen.NInt(4), gen.NFloat(0.5)}},
+		{int64(0), []*gen.Node{gen.NInt(2)}},
+		{2.5, []*gen.Node{gen.NInt(2), gen.NFloat(1.5)}},
+		{"s", []*gen.Node{gen.NStr("x")}},
+		{"", []*gen.Node{gen.NStr("abc")}},
+	}
+	n := 0
+	for _, val := range vals {
+		for _, r := range val.rs {
+			for _, op := range []string{"+=", "-=", "*=", "/=", "%="} {
+				if _, isStr := val.v.(string); isStr && op != "+=" {
+					continue
+				}
+				if _, isF := val.v.(float64); (isF || r.Kind == gen.Float) && op == "%=" {
+					continue
+				}
+				for ctx := 0; ctx < 5; ctx++ {
+					stmt := func() []*gen.Node {
+						return []*gen.Node{gen.NCall("probe", gen.NStr("before"), id("k1")), gen.NAssign(op, []*gen.Node{id("k1")}, []*gen.Node{r.Clone()}), gen.NCall("probe", gen.NStr("in"), id("k1"))}
+					}
+					var prog []*gen.Node
+					switch ctx {
+					case 0:
+						prog = stmt()
+					case 1:
+						prog = []*gen.Node{gen.NIf([]*gen.Node{gen.NBool(true)}, [][]*gen.Node{stmt()}, nil, false)}
+					case 2:
+						prog = []*gen.Node{gen.NForIn("e", gen.NList(gen.NInt(1), gen.NInt(2)), stmt())}
+					case 3:
+						prog = []*gen.Node{gen.NFor(gen.NSet("i", gen.NInt(0)), gen.NBin("<", id("i"), gen.NInt(2)), gen.NSet("i", gen.NBin("+", id("i"), gen.NInt(1))), stmt())}
+					default:
+						prog = append(stmt(), stmt()...)
+					}
+					prog = append(prog, gen.NCall("probe", gen.NStr("after"), id("k1")), gen.NCall("add_key", id("k2"), id("k1")))
+					c := sem.NewCase(gen.FixAll(prog))
+					c.Fields = map[string]any{"message": "m", "k1": val.v}
+					judge(t, "compound-on-key", c, true, "compound-on-point-key")
+					n++
+				}
+			}
+		}
+	}
+	evid.Exhaustive("compound assignment on a point key: value types x operators x {top level, if, for-in, for, twice}", n)
 }
 
 // TestEmptyBranchTable: a truthy branch with an empty block still ends the statement.
